@@ -27,5 +27,5 @@ SPEC = PropSpec(
     ),
     not_decided="completeness of the predicates (they may under-report compatibility); that stronger predicates answer False for non-smooth operands (not required by the statement, deliberately not armed).",
     run=run,
-    floors={"R7d": 3, "R7c": 1, "R7o": 2},
+    floors={"R7d": 5, "R7c": 1, "R7o": 2},
 )
